@@ -71,6 +71,9 @@ func c08Oracle(r *rcRun, cfgName string) {
 		return
 	}
 	want := c08Table(c08Fold(r.cfg.Reqs, func(i int) bool { return r.submitted[i] && r.accepted[i] }))
+	if r.cfg.GrantMax != nil && *r.cfg.GrantMax == 0x80 {
+		want = c08Table(map[string]byte{}) // every subscription is refused by the broker: nothing is subscribed
+	}
 	got := c08Table(r.broker.Subs)
 	if want != got {
 		vrt.Failf("c08/table-differs:"+c08Shape(r)+":faults="+r.faultKinds(), "at quiescence the broker holds subscriptions [%s], the application's calls amount to [%s] (%s)\n%s", got, want, cfgName, r.summary())
@@ -222,12 +225,13 @@ func runC08(c *Ctx) {
 	type conf struct {
 		keep, always, clean bool
 		grant0              bool // the broker grants QoS 0 whatever was requested (SUBACK return codes differ from the request)
+		refuse              bool // the broker refuses every subscription (return code 0x80)
 	}
-	confs := []conf{{true, false, false, false}, {false, false, false, false}, {true, true, false, false}, {true, false, true, false}, {false, false, false, true}}
+	confs := []conf{{true, false, false, false, false}, {false, false, false, false, false}, {true, true, false, false, false}, {true, false, true, false, false}, {false, false, false, true, false}, {keep: false, refuse: true}}
 	n, f := 2, 1
 	n3 := true
 	if c.Thorough() {
-		confs = append(confs, conf{false, true, false, false}, conf{false, false, true, false}, conf{true, true, false, true})
+		confs = append(confs, conf{false, true, false, false, false}, conf{false, false, true, false, false}, conf{true, true, false, true, false})
 	}
 	faults := env.FaultSet{LostClose: true, AckLost: true}
 	if c.Thorough() {
@@ -242,6 +246,11 @@ func runC08(c *Ctx) {
 		if cf.grant0 {
 			cfgName += " broker-grants-qos0"
 			grant = new(byte)
+		}
+		if cf.refuse {
+			cfgName += " broker-refuses-subscriptions"
+			grant = new(byte)
+			*grant = 0x80
 		}
 		sc := &vrt.Scenario{
 			Name:  fmt.Sprintf("C08/%s/%s/%s", name, strings.ReplaceAll(cfgName, " ", ","), rcName(reqs)),
@@ -292,14 +301,14 @@ func runC08(c *Ctx) {
 			if x.kind == "p1" && y.kind == "p1" {
 				continue
 			}
-			for _, cf := range []conf{{false, false, false, false}, {true, true, false, false}} {
+			for _, cf := range []conf{{false, false, false, false, false}, {true, true, false, false, false}} {
 				run("N2.F2.focus", reqs, cf, vrt.Budget{F: 2})
 			}
 			// the same with an application-owned redial loop around a bare RetryClient
-			run("manual.N2.F2.focus", reqs, conf{false, false, false, false}, vrt.Budget{F: 2})
+			run("manual.N2.F2.focus", reqs, conf{false, false, false, false, false}, vrt.Budget{F: 2})
 			if c.Thorough() {
-				run("manual.N2.F2.focus", reqs, conf{true, true, false, false}, vrt.Budget{F: 2})
-				run("manual.N2.F2.focus", reqs, conf{true, false, false, false}, vrt.Budget{F: 2})
+				run("manual.N2.F2.focus", reqs, conf{true, true, false, false, false}, vrt.Budget{F: 2})
+				run("manual.N2.F2.focus", reqs, conf{true, false, false, false, false}, vrt.Budget{F: 2})
 			}
 		}
 	}
@@ -322,7 +331,7 @@ func runC08(c *Ctx) {
 				rcReq{Kind: pr[0].kind, Subs: pr[0].subs, Phase: 'O'},
 				rcReq{Kind: pr[1].kind, Subs: pr[1].subs, Phase: 'O'},
 				rcReq{Kind: "p1", Tag: "m9", Phase: 'S'})
-			for _, cf := range []conf{{false, false, false, false}, {true, true, false, false}} {
+			for _, cf := range []conf{{false, false, false, false, false}, {true, true, false, false, false}} {
 				run("parked.F2", reqs, cf, vrt.Budget{F: 2})
 			}
 		}
